@@ -141,7 +141,7 @@ def step(objs, st, o):
             t2 = objs[st[2] - 1]
             return ["obs", ["bool", int(bool(t.obj == t2.obj))]]
         if k in ("items", "to_dict"):
-            c = copy.deepcopy(t.obj)                       # items()/to_dict() may expand a shared scalar: look at a copy
+            c = t.obj                                      # on the real object: a stale memo / cache must be seen
             d = dict(c.items()) if k == "items" else c.to_dict()
             d = {int(kk): vv for kk, vv in d.items()}
             order = [key_int(x, t.kdt) for x in t.ks]
